@@ -153,6 +153,57 @@ var c23SelfTests = []SelfTest{
 		{File: "internal/socks5/handler.go", Old: "\tbuf := make([]byte, 4+len(addrBytes)+2)\n\tbuf[0] = SOCKS5Version\n\tbuf[1] = reply\n\tbuf[2] = 0x00 // RSV\n\tbuf[3] = addrType\n\tcopy(buf[4:], addrBytes)\n\tbinary.BigEndian.PutUint16(buf[4+len(addrBytes):], bindPort)\n\n\t_, err := conn.Write(buf)\n", New: "\t_, err := conn.Write(encodeReplyBytes(reply, addrType, addrBytes, bindPort))\n"},
 		{File: "internal/socks5/handler.go", Old: "// sendReply sends a SOCKS5 reply.\n", New: "func encodeReplyBytes(reply, addrType byte, addrBytes []byte, bindPort uint16) []byte {\n\tbuf := make([]byte, 4+len(addrBytes)+2)\n\tbuf[0] = SOCKS5Version\n\tbuf[1] = reply\n\tbuf[2] = 0x00 // RSV\n\tbuf[3] = addrType\n\tcopy(buf[4:], addrBytes)\n\tbinary.BigEndian.PutUint16(buf[4+len(addrBytes):], bindPort)\n\treturn buf\n}\n\n// sendReply sends a SOCKS5 reply.\n"},
 	}},
+	{Name: "rewrite: dispatch extracted into a helper with early-return ifs", Edits: []Edit{
+		{File: "internal/socks5/handler.go", Old: "\tswitch req.Command {\n\tcase CmdConnect:\n\t\treturn h.handleConnect(conn, req)\n\tcase CmdUDPAssociate:\n\t\treturn h.handleUDPAssociate(conn, req)\n\tcase CmdICMPEcho:\n\t\treturn h.handleICMPEcho(conn, req)\n\tdefault:\n\t\th.sendReply(conn, ReplyCmdNotSupported, nil, 0)\n\t\treturn fmt.Errorf(\"unsupported command: %d\", req.Command)\n\t}\n}\n", New: "\treturn h.dispatch(conn, req)\n}\n\nfunc (h *Handler) dispatch(conn net.Conn, req *Request) error {\n\tcmd := req.Command\n\tif cmd == CmdConnect {\n\t\treturn h.handleConnect(conn, req)\n\t}\n\tif cmd == CmdUDPAssociate {\n\t\treturn h.handleUDPAssociate(conn, req)\n\t}\n\tif cmd == CmdICMPEcho {\n\t\treturn h.handleICMPEcho(conn, req)\n\t}\n\th.sendReply(conn, ReplyCmdNotSupported, nil, 0)\n\treturn fmt.Errorf(\"unsupported command: %d\", cmd)\n}\n"},
+	}},
+	{Name: "rewrite: handler selected as a method value, unsupported command as a nil guard", Edits: []Edit{
+		{File: "internal/socks5/handler.go", Old: "\tswitch req.Command {\n\tcase CmdConnect:\n\t\treturn h.handleConnect(conn, req)\n\tcase CmdUDPAssociate:\n\t\treturn h.handleUDPAssociate(conn, req)\n\tcase CmdICMPEcho:\n\t\treturn h.handleICMPEcho(conn, req)\n\tdefault:\n\t\th.sendReply(conn, ReplyCmdNotSupported, nil, 0)\n\t\treturn fmt.Errorf(\"unsupported command: %d\", req.Command)\n\t}\n}\n", New: "\tvar serve func(net.Conn, *Request) error\n\tswitch req.Command {\n\tcase CmdICMPEcho:\n\t\tserve = h.handleICMPEcho\n\tcase CmdUDPAssociate:\n\t\tserve = h.handleUDPAssociate\n\tcase CmdConnect:\n\t\tserve = h.handleConnect\n\t}\n\tif serve == nil {\n\t\th.sendReply(conn, ReplyCmdNotSupported, nil, 0)\n\t\treturn fmt.Errorf(\"unsupported command: %d\", req.Command)\n\t}\n\treturn serve(conn, req)\n}\n"},
+	}},
+	{Name: "rewrite: allocate-and-read blocks replaced by a readExact helper", Edits: []Edit{
+		{File: "internal/socks5/handler.go", Old: "\theader := make([]byte, 4)\n\tif _, err := io.ReadFull(conn, header); err != nil {\n\t\treturn nil, err\n\t}\n\n\tif header[0] != SOCKS5Version {\n\t\treturn nil, fmt.Errorf(\"unsupported SOCKS version: %d\", header[0])\n\t}\n\n\treq := &Request{", New: "\theader, err := readExact(conn, 4)\n\tif err != nil {\n\t\treturn nil, err\n\t}\n\n\tif header[0] != SOCKS5Version {\n\t\treturn nil, fmt.Errorf(\"unsupported SOCKS version: %d\", header[0])\n\t}\n\n\treq := &Request{"},
+		{File: "internal/socks5/handler.go", Old: "\tportBuf := make([]byte, 2)\n\tif _, err := io.ReadFull(conn, portBuf); err != nil {\n\t\treturn nil, err\n\t}\n\treq.DestPort = binary.BigEndian.Uint16(portBuf)\n", New: "\tportBuf, err := readExact(conn, 2)\n\tif err != nil {\n\t\treturn nil, err\n\t}\n\treq.DestPort = binary.BigEndian.Uint16(portBuf)\n"},
+		{File: "internal/socks5/handler.go", Old: "// readRequest reads the SOCKS5 request.\n", New: "func readExact(r io.Reader, n int) ([]byte, error) {\n\tb := make([]byte, n)\n\tif _, err := io.ReadFull(r, b); err != nil {\n\t\treturn nil, err\n\t}\n\treturn b, nil\n}\n\n// readRequest reads the SOCKS5 request.\n"},
+	}},
+	{Name: "rewrite: dial moved into a helper that is handed the address", Edits: []Edit{
+		{File: "internal/socks5/handler.go", Old: "\ttarget, err := h.dialer.DialContext(ctx, \"tcp\", targetAddr)\n", New: "\ttarget, err := h.dialTo(ctx, targetAddr)\n"},
+		{File: "internal/socks5/handler.go", Old: "// handleConnect handles CONNECT commands.\n", New: "func (h *Handler) dialTo(ctx context.Context, address string) (net.Conn, error) {\n\treturn h.dialer.DialContext(ctx, \"tcp\", address)\n}\n\n// handleConnect handles CONNECT commands.\n"},
+	}},
+	{Name: "rewrite: reply assembled with append and AppendUint16", Edits: []Edit{
+		{File: "internal/socks5/handler.go", Old: "\tbuf := make([]byte, 4+len(addrBytes)+2)\n\tbuf[0] = SOCKS5Version\n\tbuf[1] = reply\n\tbuf[2] = 0x00 // RSV\n\tbuf[3] = addrType\n\tcopy(buf[4:], addrBytes)\n\tbinary.BigEndian.PutUint16(buf[4+len(addrBytes):], bindPort)\n", New: "\tbuf := make([]byte, 0, 4+len(addrBytes)+2)\n\tbuf = append(buf, SOCKS5Version, reply, 0x00, addrType)\n\tbuf = append(buf, addrBytes...)\n\tbuf = binary.BigEndian.AppendUint16(buf, bindPort)\n"},
+	}},
+	{Name: "rewrite: reply with literal zero address and defaults assigned first", Edits: []Edit{
+		{File: "internal/socks5/handler.go", Old: "\tvar addrType byte\n\tvar addrBytes []byte\n\n\tif ipv4 := bindIP.To4(); ipv4 != nil {\n\t\taddrType = AddrTypeIPv4\n\t\taddrBytes = ipv4\n\t} else if bindIP != nil {\n\t\taddrType = AddrTypeIPv6\n\t\taddrBytes = bindIP\n\t} else {\n\t\taddrType = AddrTypeIPv4\n\t\taddrBytes = make([]byte, 4) // 0.0.0.0\n\t}\n", New: "\taddrType := byte(AddrTypeIPv4)\n\taddrBytes := []byte{0, 0, 0, 0}\n\tif ipv4 := bindIP.To4(); ipv4 != nil {\n\t\taddrBytes = ipv4\n\t} else if bindIP != nil {\n\t\taddrType = AddrTypeIPv6\n\t\taddrBytes = bindIP\n\t}\n"},
+		{File: "internal/socks5/handler.go", Old: "\tbuf := make([]byte, 4+len(addrBytes)+2)\n\tbuf[0] = SOCKS5Version\n\tbuf[1] = reply\n\tbuf[2] = 0x00 // RSV\n\tbuf[3] = addrType\n\tcopy(buf[4:], addrBytes)\n\tbinary.BigEndian.PutUint16(buf[4+len(addrBytes):], bindPort)\n", New: "\tbuf := make([]byte, 0, 4+len(addrBytes)+2)\n\tbuf = append(buf, SOCKS5Version, reply, 0x00, addrType)\n\tbuf = append(buf, addrBytes...)\n\tbuf = binary.BigEndian.AppendUint16(buf, bindPort)\n"},
+	}},
+	{Name: "appended reply with REP and RSV swapped", ExpectRule: "C23.R3", Edits: []Edit{
+		{File: "internal/socks5/handler.go", Old: "\tbuf := make([]byte, 4+len(addrBytes)+2)\n\tbuf[0] = SOCKS5Version\n\tbuf[1] = reply\n\tbuf[2] = 0x00 // RSV\n\tbuf[3] = addrType\n\tcopy(buf[4:], addrBytes)\n\tbinary.BigEndian.PutUint16(buf[4+len(addrBytes):], bindPort)\n", New: "\tbuf := make([]byte, 0, 4+len(addrBytes)+2)\n\tbuf = append(buf, SOCKS5Version, 0x00, reply, addrType)\n\tbuf = append(buf, addrBytes...)\n\tbuf = binary.BigEndian.AppendUint16(buf, bindPort)\n"},
+	}},
+	{Name: "appended reply with a little-endian port", ExpectRule: "C23.R3", Edits: []Edit{
+		{File: "internal/socks5/handler.go", Old: "\tbuf := make([]byte, 4+len(addrBytes)+2)\n\tbuf[0] = SOCKS5Version\n\tbuf[1] = reply\n\tbuf[2] = 0x00 // RSV\n\tbuf[3] = addrType\n\tcopy(buf[4:], addrBytes)\n\tbinary.BigEndian.PutUint16(buf[4+len(addrBytes):], bindPort)\n", New: "\tbuf := make([]byte, 0, 4+len(addrBytes)+2)\n\tbuf = append(buf, SOCKS5Version, reply, 0x00, addrType)\n\tbuf = append(buf, addrBytes...)\n\tbuf = binary.LittleEndian.AppendUint16(buf, bindPort)\n"},
+	}},
+	{Name: "method-value dispatch that maps BIND to the CONNECT handler", ExpectRule: "C23.R1", Edits: []Edit{
+		{File: "internal/socks5/handler.go", Old: "\tswitch req.Command {\n\tcase CmdConnect:\n\t\treturn h.handleConnect(conn, req)\n\tcase CmdUDPAssociate:\n\t\treturn h.handleUDPAssociate(conn, req)\n\tcase CmdICMPEcho:\n\t\treturn h.handleICMPEcho(conn, req)\n\tdefault:\n\t\th.sendReply(conn, ReplyCmdNotSupported, nil, 0)\n\t\treturn fmt.Errorf(\"unsupported command: %d\", req.Command)\n\t}\n}\n", New: "\tvar serve func(net.Conn, *Request) error\n\tswitch req.Command {\n\tcase CmdICMPEcho:\n\t\tserve = h.handleICMPEcho\n\tcase CmdUDPAssociate:\n\t\tserve = h.handleUDPAssociate\n\tcase CmdConnect, CmdBind:\n\t\tserve = h.handleConnect\n\t}\n\tif serve == nil {\n\t\th.sendReply(conn, ReplyCmdNotSupported, nil, 0)\n\t\treturn fmt.Errorf(\"unsupported command: %d\", req.Command)\n\t}\n\treturn serve(conn, req)\n}\n"},
+	}},
+	{Name: "dial helper that is handed an address without brackets", ExpectRule: "C23.R1", Edits: []Edit{
+		{File: "internal/socks5/handler.go", Old: "\ttarget, err := h.dialer.DialContext(ctx, \"tcp\", targetAddr)\n", New: "\ttarget, err := h.dialTo(ctx, req.DestAddr+\":\"+strconv.Itoa(int(req.DestPort)))\n"},
+		{File: "internal/socks5/handler.go", Old: "// handleConnect handles CONNECT commands.\n", New: "func (h *Handler) dialTo(ctx context.Context, address string) (net.Conn, error) {\n\treturn h.dialer.DialContext(ctx, \"tcp\", address)\n}\n\n// handleConnect handles CONNECT commands.\n"},
+	}},
+	{Name: "readExact helper that tolerates short reads", ExpectRule: "C23.R1", Edits: []Edit{
+		{File: "internal/socks5/handler.go", Old: "\theader := make([]byte, 4)\n\tif _, err := io.ReadFull(conn, header); err != nil {\n\t\treturn nil, err\n\t}\n\n\tif header[0] != SOCKS5Version {\n\t\treturn nil, fmt.Errorf(\"unsupported SOCKS version: %d\", header[0])\n\t}\n\n\treq := &Request{", New: "\theader, err := readExact(conn, 4)\n\tif err != nil {\n\t\treturn nil, err\n\t}\n\n\tif header[0] != SOCKS5Version {\n\t\treturn nil, fmt.Errorf(\"unsupported SOCKS version: %d\", header[0])\n\t}\n\n\treq := &Request{"},
+		{File: "internal/socks5/handler.go", Old: "\tportBuf := make([]byte, 2)\n\tif _, err := io.ReadFull(conn, portBuf); err != nil {\n\t\treturn nil, err\n\t}\n\treq.DestPort = binary.BigEndian.Uint16(portBuf)\n", New: "\tportBuf, err := readExact(conn, 2)\n\tif err != nil {\n\t\treturn nil, err\n\t}\n\treq.DestPort = binary.BigEndian.Uint16(portBuf)\n"},
+		{File: "internal/socks5/handler.go", Old: "// readRequest reads the SOCKS5 request.\n", New: "func readExact(r io.Reader, n int) ([]byte, error) {\n\tb := make([]byte, n)\n\tif _, err := r.Read(b); err != nil {\n\t\treturn nil, err\n\t}\n\treturn b, nil\n}\n\n// readRequest reads the SOCKS5 request.\n"},
+	}},
+	{Name: "rewrite: table-driven dispatch (map from command to method value)", Edits: []Edit{
+		{File: "internal/socks5/handler.go", Old: "\tswitch req.Command {\n\tcase CmdConnect:\n\t\treturn h.handleConnect(conn, req)\n\tcase CmdUDPAssociate:\n\t\treturn h.handleUDPAssociate(conn, req)\n\tcase CmdICMPEcho:\n\t\treturn h.handleICMPEcho(conn, req)\n\tdefault:\n\t\th.sendReply(conn, ReplyCmdNotSupported, nil, 0)\n\t\treturn fmt.Errorf(\"unsupported command: %d\", req.Command)\n\t}\n}\n", New: "\thandlers := map[byte]func(net.Conn, *Request) error{\n\t\tCmdConnect:      h.handleConnect,\n\t\tCmdUDPAssociate: h.handleUDPAssociate,\n\t\tCmdICMPEcho:     h.handleICMPEcho,\n\t}\n\tserve, ok := handlers[req.Command]\n\tif !ok {\n\t\th.sendReply(conn, ReplyCmdNotSupported, nil, 0)\n\t\treturn fmt.Errorf(\"unsupported command: %d\", req.Command)\n\t}\n\treturn serve(conn, req)\n}\n"},
+	}},
+	{Name: "table-driven dispatch with the UDP handler registered for CONNECT", ExpectRule: "C23.R1", Edits: []Edit{
+		{File: "internal/socks5/handler.go", Old: "\tswitch req.Command {\n\tcase CmdConnect:\n\t\treturn h.handleConnect(conn, req)\n\tcase CmdUDPAssociate:\n\t\treturn h.handleUDPAssociate(conn, req)\n\tcase CmdICMPEcho:\n\t\treturn h.handleICMPEcho(conn, req)\n\tdefault:\n\t\th.sendReply(conn, ReplyCmdNotSupported, nil, 0)\n\t\treturn fmt.Errorf(\"unsupported command: %d\", req.Command)\n\t}\n}\n", New: "\thandlers := map[byte]func(net.Conn, *Request) error{\n\t\tCmdConnect:      h.handleUDPAssociate,\n\t\tCmdUDPAssociate: h.handleConnect,\n\t\tCmdICMPEcho:     h.handleICMPEcho,\n\t}\n\tserve, ok := handlers[req.Command]\n\tif !ok {\n\t\th.sendReply(conn, ReplyCmdNotSupported, nil, 0)\n\t\treturn fmt.Errorf(\"unsupported command: %d\", req.Command)\n\t}\n\treturn serve(conn, req)\n}\n"},
+	}},
+	{Name: "rewrite: command handlers registered in a table by the constructor", Edits: []Edit{
+		{File: "internal/socks5/handler.go", Old: "\tswitch req.Command {\n\tcase CmdConnect:\n\t\treturn h.handleConnect(conn, req)\n\tcase CmdUDPAssociate:\n\t\treturn h.handleUDPAssociate(conn, req)\n\tcase CmdICMPEcho:\n\t\treturn h.handleICMPEcho(conn, req)\n\tdefault:\n\t\th.sendReply(conn, ReplyCmdNotSupported, nil, 0)\n\t\treturn fmt.Errorf(\"unsupported command: %d\", req.Command)\n\t}\n}\n", New: "\tserve, ok := h.commands[req.Command]\n\tif !ok {\n\t\th.sendReply(conn, ReplyCmdNotSupported, nil, 0)\n\t\treturn fmt.Errorf(\"unsupported command: %d\", req.Command)\n\t}\n\treturn serve(conn, req)\n}\n"},
+		{File: "internal/socks5/handler.go", Old: "\tauthenticators []Authenticator\n\tdialer         Dialer\n", New: "\tauthenticators []Authenticator\n\tdialer         Dialer\n\tcommands       map[byte]func(net.Conn, *Request) error\n"},
+		{File: "internal/socks5/handler.go", Old: "\treturn &Handler{\n\t\tauthenticators:   auths,\n\t\tdialer:           dialer,\n\t\tudpAssociations:  make(map[uint64]*UDPAssociation),\n\t\ticmpAssociations: make(map[uint64]*ICMPAssociation),\n\t}\n", New: "\th := &Handler{\n\t\tauthenticators:   auths,\n\t\tdialer:           dialer,\n\t\tudpAssociations:  make(map[uint64]*UDPAssociation),\n\t\ticmpAssociations: make(map[uint64]*ICMPAssociation),\n\t}\n\th.commands = map[byte]func(net.Conn, *Request) error{\n\t\tCmdConnect:      h.handleConnect,\n\t\tCmdUDPAssociate: h.handleUDPAssociate,\n\t\tCmdICMPEcho:     h.handleICMPEcho,\n\t}\n\treturn h\n"},
+	}},
 	{Name: "rewrite: UDP header parser with a single combined length check per case", Edits: []Edit{
 		{File: "internal/socks5/udp.go", Old: "\t\tif len(data) < offset+1 {\n\t\t\treturn nil, nil, errors.New(\"datagram too short for domain length\")\n\t\t}\n\t\tdomainLen := int(data[offset])\n\t\toffset++\n\t\tif len(data) < offset+domainLen+2 {\n", New: "\t\tdomainLen := int(data[offset])\n\t\toffset++\n\t\tif offset+domainLen+2 > len(data) {\n"},
 	}},
@@ -177,6 +228,9 @@ type c23cx struct {
 	parsers    []*ssa.Function
 	parserSet  map[*ssa.Function]bool
 	truncFloor bool
+
+	cmdTesting    map[*ssa.Function]bool
+	dispatchRoots map[*ssa.Function]bool
 }
 
 func c23IsNetConn(t types.Type) bool { return t.String() == "net.Conn" }
@@ -278,7 +332,11 @@ func (cx *c23cx) findRoles() {
 				if o, _, _, ok := pa.st.resolveSlice(ev.args[1]); ok {
 					// some header byte (offset < 4) of the written buffer is a byte parameter: the reply code
 					for i := int64(0); i < 4; i++ {
-						if e := o.elems[i]; e.isParam() && int(e.n) < len(fn.Params) && c23IsByte(fn.Params[e.n].Type()) {
+						e := o.elems[i]
+						if o.hasSegs && int(i) < len(o.segs) && o.segs[i].kind == "byte" {
+							e = o.segs[i].t
+						}
+						if e.isParam() && int(e.n) < len(fn.Params) && c23IsByte(fn.Params[e.n].Type()) {
 							cx.encoders[fn] = int(e.n)
 							cx.encPaths[fn] = ex.paths
 						}
@@ -302,6 +360,34 @@ func (cx *c23cx) findRoles() {
 			if nConst >= 2 {
 				cx.encoders[fn] = byteIdx
 				cx.encPaths[fn] = ex.paths
+			}
+		}
+	}
+	// functions that look at Request.Command are part of the dispatch; the command handlers are the
+	// functions from which a command sink is reachable without passing through dispatch code
+	cx.cmdTesting = map[*ssa.Function]bool{}
+	for _, acc := range p.FieldAccessesOfKind(cx.fCmd, kit.FieldLoad) {
+		cx.cmdTesting[kit.TopLevel(acc.Fn)] = true
+	}
+	callsParser := map[*ssa.Function]bool{}
+	for _, pf := range cx.parsers {
+		for _, c := range p.StaticCallers(pf) {
+			callsParser[kit.TopLevel(c.Parent())] = true
+		}
+	}
+	cx.dispatchRoots = callsParser
+	for _, set := range []map[*ssa.Function]bool{cx.connectEx, cx.udpEx, cx.icmpEx} {
+		for changed := true; changed; {
+			changed = false
+			for fn := range set {
+				for _, c := range p.StaticCallers(fn) {
+					top := kit.TopLevel(c.Parent())
+					if kit.FuncPkgPath(top) != cx.pkg || set[top] || cx.cmdTesting[top] || callsParser[top] {
+						continue
+					}
+					set[top] = true
+					changed = true
+				}
 			}
 		}
 	}
@@ -422,22 +508,7 @@ func (cx *c23cx) ruleDial() {
 				bad = "the network is not the constant \"tcp\""
 			}
 			if bad == "" {
-				jc, ok := address.(*ssa.Call)
-				if !ok || !kit.CalleeOf(jc).Is("net", "", "JoinHostPort") || len(jc.Call.Args) != 2 {
-					bad = "the address is not built by net.JoinHostPort (IPv6 literals need bracketing)"
-				} else {
-					if f, _ := kit.LoadedField(jc.Call.Args[0]); f != cx.fAddr {
-						bad = "the host part is not Request.DestAddr"
-					} else if ok, why := cx.portExpr(jc.Call.Args[1], 0); !ok {
-						bad = why
-					} else {
-						// both fields must be read from the same request value
-						_, b1 := kit.LoadedField(jc.Call.Args[0])
-						if !cx.portFromSameRequest(jc.Call.Args[1], b1) {
-							bad = "host and port are taken from different requests"
-						}
-					}
-				}
+				bad = cx.dialAddress(address, 0)
 			}
 			r.Decide(bad == "", "C23.R1", key, pos,
 				"dials tcp JoinHostPort(req.DestAddr, decimal(req.DestPort))",
@@ -445,6 +516,50 @@ func (cx *c23cx) ruleDial() {
 		}
 	}
 	r.Count("dial_sites", n)
+}
+
+// dialAddress: "" if v is net.JoinHostPort(req.DestAddr, decimal(req.DestPort)); a parameter is
+// judged at every static call site of its function (the dial may live in a helper that is handed
+// the address).
+func (cx *c23cx) dialAddress(v ssa.Value, depth int) string {
+	if prm, ok := v.(*ssa.Parameter); ok && depth < 4 {
+		fn := prm.Parent()
+		idx := -1
+		for i, q := range fn.Params {
+			if q == prm {
+				idx = i
+			}
+		}
+		sites := cx.p.StaticCallers(fn)
+		if idx < 0 || len(sites) == 0 {
+			return "the address is parameter " + prm.Name() + " of " + kit.FuncName(fn) + ", which has no static caller"
+		}
+		for _, c := range sites {
+			if idx >= len(c.Common().Args) {
+				return "the address parameter has no argument at a call site"
+			}
+			if bad := cx.dialAddress(c.Common().Args[idx], depth+1); bad != "" {
+				return bad
+			}
+		}
+		return ""
+	}
+	jc, ok := v.(*ssa.Call)
+	if !ok || !kit.CalleeOf(jc).Is("net", "", "JoinHostPort") || len(jc.Call.Args) != 2 {
+		return "the address is not built by net.JoinHostPort (IPv6 literals need bracketing)"
+	}
+	f, b1 := kit.LoadedField(jc.Call.Args[0])
+	if f != cx.fAddr {
+		return "the host part is not Request.DestAddr"
+	}
+	if ok, why := cx.portExpr(jc.Call.Args[1], 0); !ok {
+		return why
+	}
+	// both fields must be read from the same request value
+	if !cx.portFromSameRequest(jc.Call.Args[1], b1) {
+		return "host and port are taken from different requests"
+	}
+	return ""
 }
 
 func (cx *c23cx) portFromSameRequest(v ssa.Value, base ssa.Value) bool {
@@ -762,6 +877,63 @@ func (cx *c23cx) ruleParser() {
 	}
 }
 
+// fieldTable: a struct field of package socks5 (by name and index) that is assigned exactly once,
+// with a map literal of constant integer keys and method values, and never updated through the
+// field afterwards. Such a table is a finite case distinction on its key.
+func (cx *c23cx) fieldTable(name string, idx int) ([]int64, []*ssa.Function, bool) {
+	pk := cx.p.Package("internal/socks5")
+	if pk == nil || pk.Types == nil {
+		return nil, nil, false
+	}
+	for _, tn := range pk.Types.Scope().Names() {
+		obj, ok := pk.Types.Scope().Lookup(tn).(*types.TypeName)
+		if !ok {
+			continue
+		}
+		st, ok := obj.Type().Underlying().(*types.Struct)
+		if !ok || idx >= st.NumFields() || st.Field(idx).Name() != name {
+			continue
+		}
+		f := st.Field(idx)
+		if _, isMap := f.Type().Underlying().(*types.Map); !isMap {
+			continue
+		}
+		if len(cx.p.FieldAccessesOfKind(f, kit.MapInsert, kit.MapDelete, kit.FieldClear, kit.FieldAddrUse)) > 0 {
+			return nil, nil, false
+		}
+		stores := cx.p.FieldAccessesOfKind(f, kit.FieldStore)
+		if len(stores) != 1 {
+			return nil, nil, false
+		}
+		mm, ok := c23StripCT(stores[0].Val).(*ssa.MakeMap)
+		if !ok || mm.Referrers() == nil {
+			return nil, nil, false
+		}
+		var keys []int64
+		var fns []*ssa.Function
+		for _, rr := range *mm.Referrers() {
+			mu, ok := rr.(*ssa.MapUpdate)
+			if !ok {
+				continue
+			}
+			k, isConst := kit.ConstInt(mu.Key)
+			mc, isClosure := mu.Value.(*ssa.MakeClosure)
+			if !isConst || !isClosure {
+				return nil, nil, false
+			}
+			fv, _ := mc.Fn.(*ssa.Function)
+			target, isBound := c23BoundTarget(fv)
+			if !isBound {
+				return nil, nil, false
+			}
+			keys = append(keys, k)
+			fns = append(fns, target)
+		}
+		return keys, fns, len(keys) > 0
+	}
+	return nil, nil, false
+}
+
 // ruleRequestWriters: the decoded fields are written by the parser (and the helpers it calls)
 // only; any other store changes what is dialed after the request was parsed.
 func (cx *c23cx) ruleRequestWriters() {
@@ -828,16 +1000,14 @@ func (cx *c23cx) ruleDispatcher() {
 		return def
 	}
 	icmpCmd := cmdConst("CmdICMPEcho", 4)
-	disp := map[*ssa.Function]bool{}
-	for ex := range cx.connectEx {
-		for _, c := range p.StaticCallers(ex) {
-			disp[kit.TopLevel(c.Parent())] = true
-		}
-	}
+	// the dispatch starts in the function that obtains the request from the parser; callees that
+	// look at Request.Command are evaluated with it
+	disp := cx.dispatchRoots
 	r.Count("dispatchers", len(disp))
-	if !r.Require(len(disp) >= 1, "anchor-unresolved: no function calls the CONNECT executor") {
+	if !r.Require(len(disp) >= 1, "anchor-unresolved: no function calls the request parser") {
 		return
 	}
+	nConnectRuns := 0
 	var fns []*ssa.Function
 	for fn := range disp {
 		fns = append(fns, fn)
@@ -846,7 +1016,12 @@ func (cx *c23cx) ruleDispatcher() {
 	for _, fn := range fns {
 		fname := kit.FuncName(fn)
 		fpos := p.Pos(fn.Pos())
-		ex := &c23Exec{p: p, maxPaths: 2000}
+		ex := &c23Exec{p: p, maxPaths: 4000, fieldTable: cx.fieldTable, inline: func(callee *ssa.Function, depth int) bool {
+			if _, isEnc := cx.encoders[callee]; isEnc || cx.parserSet[callee] {
+				return false
+			}
+			return cx.cmdTesting[kit.TopLevel(callee)] && kit.FuncPkgPath(callee) == cx.pkg && len(callee.Blocks) <= 80
+		}}
 		ex.run(fn)
 		if !r.Require(!ex.overflow, "dispatcher %s: too many paths", fname) {
 			continue
@@ -891,6 +1066,9 @@ func (cx *c23cx) ruleDispatcher() {
 			}
 			sel := c23Selector(pa, reqAtom+".Command")
 			for _, ev := range execs {
+				if cx.connectEx[ev.static] {
+					nConnectRuns++
+				}
 				want := int64(1)
 				what := "CONNECT (1)"
 				switch {
@@ -938,10 +1116,11 @@ func (cx *c23cx) ruleDispatcher() {
 				r.Decide(v.ok, "C23.R2", key, fpos, "answered with reply 7, nothing executed", v.why)
 			}
 		}
-		if nDefault == 0 {
+		if nDefault == 0 && nConnectRuns >= 1 {
 			r.Violation("C23.R2", fname+" unsupported command", fpos, "no path of the dispatcher handles a command that matches none of the supported values")
 		}
 	}
+	r.Require(nConnectRuns >= 1, "anchor-unresolved: no evaluated dispatch path reaches the function that dials")
 }
 
 // ---------------------------------------------------------------------------------------------
@@ -1079,6 +1258,121 @@ func (cx *c23cx) ruleRawReplies() {
 	}
 }
 
+// atypAgrees: the ATYP byte (rendered) agrees with the address bytes x on this path; returns the
+// address length it implies.
+func (cx *c23cx) atypAgrees(st *c23State, atyp string, x *c23T) (int64, string) {
+	holds := func(rendered string, taken bool) bool {
+		for _, c := range st.conds {
+			if st.show(c.t) == rendered && c.taken == taken {
+				return true
+			}
+		}
+		return false
+	}
+	nonNil := func(t *c23T) bool {
+		s := st.show(t)
+		return holds("("+s+"!=nil)", true) || holds("("+s+"==nil)", false) || holds("(nil!="+s+")", true) || holds("(nil=="+s+")", false)
+	}
+	isNil := func(s string) bool {
+		return holds("("+s+"!=nil)", false) || holds("("+s+"==nil)", true) || holds("(nil!="+s+")", false) || holds("(nil=="+s+")", true)
+	}
+	constLen, lenKnown := st.lenTerm(x).intVal()
+	switch atyp {
+	case "1":
+		four := lenKnown && constLen == 4
+		if !four && x.isCallOf("net.IP.To4") && (nonNil(x) || (len(x.args) == 1 && x.args[0].op == "gload" && strings.HasPrefix(x.args[0].s, "net.IPv4"))) {
+			four = true
+		}
+		if !four {
+			return 0, "ATYP is 1 (IPv4) but the address bytes (" + st.show(x) + ") are not known to be 4 bytes long"
+		}
+		return 4, ""
+	case "4":
+		sixteen := lenKnown && constLen == 16
+		if !sixteen && x.isCallOf("net.IP.To16") && nonNil(x) {
+			sixteen = true
+		}
+		if !sixteen && nonNil(x) && isNil("net.IP.To4("+st.show(x)+")") {
+			sixteen = true
+		}
+		if !sixteen {
+			return 0, "ATYP is 4 (IPv6) but the address bytes (" + st.show(x) + ") are not known to be a non-IPv4, non-nil IP"
+		}
+		return 16, ""
+	}
+	return 0, "byte 3 (ATYP) is " + atyp + ", not 1 or 4"
+}
+
+// replyLayoutSegs checks a reply assembled by append: VER, REP, RSV, ATYP, address, port.
+func (cx *c23cx) replyLayoutSegs(fn *ssa.Function, replyIdx int, pa *c23Path, o *c23Obj) (bool, string, string) {
+	st := pa.st
+	var parts []string
+	for _, sg := range o.segs {
+		parts = append(parts, sg.kind)
+	}
+	n := len(o.segs)
+	shapeOK := n >= 6 && o.segs[n-1].kind == "u16be"
+	for i := 0; i < 4 && shapeOK; i++ {
+		shapeOK = o.segs[i].kind == "byte"
+	}
+	// the address: one slice, or a run of individually appended bytes (a literal such as 0,0,0,0)
+	literal := int64(0)
+	if shapeOK && !(n == 6 && o.segs[4].kind == "bytes") {
+		for _, sg := range o.segs[4 : n-1] {
+			if sg.kind != "byte" {
+				shapeOK = false
+			}
+		}
+		literal = int64(n - 5)
+	}
+	if !shapeOK {
+		if n >= 1 && o.segs[n-1].kind == "u16le" {
+			return false, "the port is not appended big-endian", "appended reply"
+		}
+		return false, "the appended reply consists of [" + strings.Join(parts, ",") + "], not VER, REP, RSV, ATYP, address bytes, big-endian port", "appended reply"
+	}
+	if literal > 0 {
+		kind := fmt.Sprintf("address of %d literal bytes", literal)
+		atyp := st.show(o.segs[3].t)
+		if !(atyp == "1" && literal == 4) && !(atyp == "4" && literal == 16) {
+			return false, fmt.Sprintf("ATYP is %s but %d address bytes are appended", atyp, literal), kind
+		}
+		o2 := *o
+		o2.segs = append(append([]c23Seg{}, o.segs[:4]...), c23Seg{kind: "bytes", t: c23Const("literal")}, o.segs[n-1])
+		ok, why, _ := cx.replyLayoutSegsHead(fn, replyIdx, st, &o2, false)
+		return ok, why, kind
+	}
+	x := o.segs[4].t
+	kind := "address " + st.show(x)
+	ok, why, _ := cx.replyLayoutSegsHead(fn, replyIdx, st, o, true)
+	return ok, why, kind
+}
+
+// replyLayoutSegsHead checks VER/REP/RSV/port of a six-segment reply and, if withAtyp, that ATYP
+// agrees with the address slice.
+func (cx *c23cx) replyLayoutSegsHead(fn *ssa.Function, replyIdx int, st *c23State, o *c23Obj, withAtyp bool) (bool, string, string) {
+	x := o.segs[4].t
+	kind := ""
+	if v := st.show(o.segs[0].t); v != "5" {
+		return false, "byte 0 (VER) is " + v + ", not 5", kind
+	}
+	if e1 := o.segs[1].t; !e1.isParam() || int(e1.n) != replyIdx {
+		return false, "byte 1 (REP) is " + st.show(e1) + ", not the reply code", kind
+	}
+	if v := st.show(o.segs[2].t); v != "0" {
+		return false, "byte 2 (RSV) is " + v + ", not 0", kind
+	}
+	if withAtyp {
+		if _, why := cx.atypAgrees(st, st.show(o.segs[3].t), x); why != "" {
+			return false, why, kind
+		}
+	}
+	if pt := o.segs[5].t; !pt.isParam() || int(pt.n) >= len(fn.Params) || fn.Params[pt.n].Type().String() != "uint16" {
+		return false, "the port written is " + st.show(pt) + ", not the port parameter", kind
+	}
+	return true, "", kind
+}
+
 // c23SharedRoot: the slice term is rooted in memory shared between connections (a package-level
 // variable or a field reached from a parameter such as the Handler receiver); "" otherwise
 // (memory of this call, a caller-supplied slice, or unknown).
@@ -1177,6 +1471,9 @@ func (cx *c23cx) replyLayout(fn *ssa.Function, replyIdx int, pa *c23Path, w c23E
 	}
 	if z, isInt := lo.intVal(); !isInt || z != 0 {
 		return false, "the reply is not written from the start of its buffer", "partial buffer"
+	}
+	if o.hasSegs {
+		return cx.replyLayoutSegs(fn, replyIdx, pa, o)
 	}
 	// address bytes: the copy into the buffer at offset 4
 	var x *c23T
